@@ -27,7 +27,8 @@ REQUIRED = ["contract:Assertion.mvrs_to_data", "contract:Assertion.set_p_values"
             "datum_equal_to_u_seen", "datum_zero_seen", "style_filter_checked", "cards_filtered_out_by_style",
             "test_u_checked", "positive_margin_assertions", "supermajority_u_assorter_not_1",
             "stratum:uniform_pool_nonrepresentable_bound", "u_at_test_time_checked", "stale_u_before_set_p_values",
-            "margin_revised_after_set_margin_from_cvrs", "assorters_evaluated_on_all_cards_before_the_audit", "samples_with_an_unnumbered_record_probed"]
+            "margin_revised_after_set_margin_from_cvrs", "assorters_evaluated_on_all_cards_before_the_audit", "samples_with_an_unnumbered_record_probed", "data_of_the_whole_list_requested_with_use_all",
+            "sample_handed_over_in_another_order_than_sample_number_order"]
 ASSUMPTIONS = ["sample_threshold has been set by a draw (n_c >= 1) before mvrs_to_data is called under style",
                "the bound clause is asserted for every margin the simulator produces (also non-positive ones: the data are "
                "still inside [0,u])"]
@@ -253,6 +254,12 @@ def run_case(es, rec):
     if not ok:
         return
     m, c = ms
+    if rng.random() < 0.3 and len(m) > 2:
+        # the sample in retrieval order rather than sample-number order (pairs stay matched)
+        perm = list(range(len(m)))
+        rng.shuffle(perm)
+        m, c = [m[i] for i in perm], [c[i] for i in perm]
+        rec.count("sample_handed_over_in_another_order_than_sample_number_order")
     if rng.random() < 0.3:
         # the bound the test object currently holds is stale (margins set by a route that does not write test.u, e.g.
         # find_margins_from_tally, or changed since): set_p_values must install the right one BEFORE running the test
@@ -272,6 +279,18 @@ def run_case(es, rec):
     CALLS.clear()
     with np.errstate(all="ignore"):
         ok, pmax = rec.guard("c06.call:set_p_values", sim.L["Assertion"].set_p_values, sim.contests, m, c)
+    if ok and rng.random() < 0.2:
+        # the planning route: the data of the WHOLE list, thresholds lifted (use_all) - the style filter itself stays
+        allm = [sim.mvr_for(i) for i in range(len(sim.cvr_list))]
+        with np.errstate(all="ignore"):
+            for con in sim.contests.values():
+                if con.audit_type == sim.L["Audit"].AUDIT_TYPE.POLLING:
+                    continue
+                for asn in con.assertions.values():
+                    ok2, _ = rec.guard("c06.call:mvrs_to_data:use_all", asn.mvrs_to_data, allm, sim.cvr_list, True)
+                    if not ok2:
+                        return
+        rec.count("data_of_the_whole_list_requested_with_use_all")
     if ok and sim.use_style and rng.random() < 0.15:
         # a sampled record that carries no sample number (re-read from a file without the field, or made after the numbers
         # were assigned): it cannot be shown to lie within any contest's threshold, so it must not contribute - refusing
